@@ -39,10 +39,14 @@ struct Run<'a, 's> {
     bufs: &'s SubscriptionsBuffers<'a, Pool, N>,
     pool: &'a Pool,
     ver: [i64; 4],
+    /// number of events emitted so far (the watermark handed to add / report, as im.rs takes it from Events)
+    nev: u64,
+    pass_ev: u64,
     now: u64,
     pass_now: u64,
     /// model subscriber -> (in-flight context, paths visited, is priming, begin time)
     ctx: BTreeMap<u64, (Ctx<'a, 's>, Vec<u32>, bool, u64)>,
+    ev_read: BTreeMap<u64, bool>,
     /// real subscription id -> model subscriber
     ids: BTreeMap<u32, u64>,
     delivered_in_pass: usize,
@@ -64,7 +68,24 @@ impl<'a, 's> Run<'a, 's> {
         }
         Some(d)
     }
+    fn read_ev(&mut self, tr: &mut Trace, s: u64) -> bool {
+        let Some((c, _, _, _)) = self.ctx.get(&s) else { return false };
+        if self.ev_read.get(&s) == Some(&true) {
+            return false;
+        }
+        self.ev_read.insert(s, true);
+        let (lo, hi) = (c.max_seen_event_number(), c.next_max_seen_event_number());
+        if hi > lo {
+            self.delivered_in_pass += 1;
+        }
+        tr.ev(json!({"ev": "DeliverEv", "s": s, "lo": lo, "hi": hi}));
+        true
+    }
     fn end(&mut self, tr: &mut Trace, s: u64, r: &str) -> bool {
+        if self.ctx.contains_key(&s) && self.ev_read.get(&s) != Some(&true) {
+            self.read_ev(tr, s);
+        }
+        self.ev_read.remove(&s);
         let Some((mut c, _seen, priming, t0)) = self.ctx.remove(&s) else { return false };
         let r = if priming && r == "fail" { "drop" } else { r };
         match r {
@@ -109,6 +130,7 @@ impl<'a, 's> Run<'a, 's> {
             }
         }
         self.pass_now = self.now;
+        self.pass_ev = self.nev;
         self.delivered_in_pass = 0;
         tr.ev(json!({"ev": "Pass", "t": self.now}));
     }
@@ -116,7 +138,7 @@ impl<'a, 's> Run<'a, 's> {
         if self.ctx.values().any(|(_, _, priming, _)| !*priming) {
             return None; // one report at a time
         }
-        let c = self.subs.verif_report(at(self.pass_now), 0, self.bufs)?;
+        let c = self.subs.verif_report(at(self.pass_now), self.pass_ev, self.bufs)?;
         let id = c.subscription().ids().id;
         let s = *self.ids.get(&id).expect("reported subscription is known");
         tr.ev(json!({"ev": "Begin", "s": s, "t": self.pass_now}));
@@ -156,7 +178,7 @@ pub fn run(args: &[String]) -> i32 {
         let subs: Subscriptions<N> = Subscriptions::new();
         let pool = Pool::new();
         let bufs: SubscriptionsBuffers<Pool, N> = SubscriptionsBuffers::new();
-        let mut r = Run { subs: &subs, bufs: &bufs, pool: &pool, ver: [0; 4], now: 0, pass_now: 0, ctx: BTreeMap::new(), ids: BTreeMap::new(), delivered_in_pass: 0 };
+        let mut r = Run { subs: &subs, bufs: &bufs, pool: &pool, ver: [0; 4], nev: 0, pass_ev: 0, now: 0, pass_now: 0, ctx: BTreeMap::new(), ev_read: BTreeMap::new(), ids: BTreeMap::new(), delivered_in_pass: 0 };
         let mut in_pass = false;
         for op in ops {
             steps += 1;
@@ -176,7 +198,7 @@ pub fn run(args: &[String]) -> i32 {
                         okstep = false;
                     } else {
                         let buf = r.pool.get_immediate().expect("buffer");
-                        match subs.verif_add(at(r.now), NonZeroU8::new(1).unwrap(), 100 + s, MIN_INT, MAX_INT, 0, buf, &bufs) {
+                        match subs.verif_add(at(r.now), NonZeroU8::new(1).unwrap(), 100 + s, MIN_INT, MAX_INT, r.nev, buf, &bufs) {
                             Some(c) => {
                                 r.ids.insert(c.subscription().ids().id, s);
                                 tr.ev(json!({"ev": "Sub", "s": s, "t": r.now}));
@@ -186,6 +208,12 @@ pub fn run(args: &[String]) -> i32 {
                         }
                     }
                 }
+                "Event" => {
+                    r.nev += 1;
+                    subs.notify_event_emitted(1, CL_A, 0);
+                    tr.ev(json!({"ev": "Event"}));
+                }
+                "ReadEv" => okstep = r.read_ev(&mut tr, s),
                 "Read" => match r.read(&mut tr, s, p) {
                     Some(d) => okstep = Some(d) == op["d"].as_bool(),
                     None => okstep = false,
@@ -242,7 +270,7 @@ pub fn run(args: &[String]) -> i32 {
             }
         }
         if quiet {
-            let w = subs.verif_next_report_at(0, &bufs);
+            let w = subs.verif_next_report_at(r.nev, &bufs);
             if w != Instant::MAX && !r.ids.is_empty() {
                 tr.ev(json!({"ev": "Wake", "w": w.as_secs() as i64 - 1000}));
             }
